@@ -238,6 +238,13 @@ func (d *Decls) strConst(s string) string {
 	} else {
 		d.axioms = append(d.axioms, fmt.Sprintf("(assert (> %s 0))", n))
 	}
+	// the bytes of a (short) constant are known: []byte("e")[0] == 'e'
+	if len(s) > 0 && len(s) <= 64 {
+		d.declFun("bytes.of.str", "(declare-fun bytes.of.str (Int) (Array Int Int))")
+		for i := 0; i < len(s); i++ {
+			d.axioms = append(d.axioms, fmt.Sprintf("(assert (= (select (bytes.of.str %s) %d) %d))", n, i, s[i]))
+		}
+	}
 	// distinct from the other constants
 	var names []string
 	for _, v := range d.strConsts {
